@@ -643,7 +643,7 @@ fn pick_amount(rng: &mut Rng, bal: i128, cap: i128) -> i128 {
 /// activity (and the same old ledgers queried again) after each gap
 fn random_sequence(t: &mut Trace, rng: &mut Rng, k: u64, seed: u64, kind: Kind, len: u64, long: bool) {
     let min_temp = if rng.chance(50) { 1 } else { 16 };
-    let start = *rng.pick(&[1u32, 2, 3, 100, 5000]);
+    let start = *rng.pick(&[0u32, 0, 1, 2, 3, 100, 5000]);
     let all_real = rng.chance(20);
     let mut s = Sim::with_ttl(kind, min_temp, start, all_real, if long { LONG_TTL } else { MAX_TTL });
     t.seq(&s.label(&format!("{} k={} seed={}", if long { "long-idle" } else { "rand" }, k, seed)));
